@@ -330,6 +330,7 @@ type streamOpts struct {
 	NearPIDs    bool  // PES PIDs that differ in one bit from each other (and 0x0fff next to null packets)
 	PESTotals   []int // first PES PID: bounded units with exactly these PES_packet_length values instead of random ones
 	DVBPMTPID   bool  // the PMT PID is one of the PIDs DVB reserves for SI (0x10..0x14, 0x1e, 0x1f): legal in MPEG
+	SharedPMT   bool  // the PAT has two sections naming two programs on the same PMT PID
 	TwoPMTPIDs  bool  // the PAT has two sections naming two different PMT PIDs; a PMT unit on each
 	TypedDescs  bool  // PMT streams carry loops of typed DVB descriptors (reference-encoded, go/harness/c14_ref.go)
 	Unbounded   bool  // with PESTotals: unbounded video PES (PES_packet_length 0) with these payload sizes instead
@@ -400,7 +401,7 @@ func genRefStream(r *Rng, o streamOpts) *refStreamModel {
 			secs := []*refSection{pat}
 			if pmtPID2 != 0 {
 				secs = append(secs, &refSection{TableID: 0, Ext: pat.Ext, Version: pat.Version, Programs: []refProgram{{Number: uint16(300 + r.Intn(100)), PID: pmtPID2}}})
-			} else if r.Chance(1, 4) {
+			} else if o.SharedPMT || r.Chance(1, 4) {
 				secs = append(secs, &refSection{TableID: 0, Ext: pat.Ext, Version: pat.Version, Programs: []refProgram{{Number: uint16(200 + r.Intn(100)), PID: pmtPID}}})
 			}
 			addUnit(refPSI(r, 0, secs))
